@@ -44,7 +44,10 @@ def _replay_file(prop: engine.Property, path: str) -> t.List[engine.Violation]:
     part = prop.part(rec["part"])
     ctx = engine.Ctx(part.name)
     ctx._case = rec["case"]
-    return part.check(rec["case"], ctx)
+    try:
+        return part.check(rec["case"], ctx)
+    except Exception as e:
+        return engine._library_exception(e)
 
 
 def main(argv: t.Optional[t.List[str]] = None) -> int:
@@ -232,8 +235,9 @@ def main(argv: t.Optional[t.List[str]] = None) -> int:
         "wall_s": round(wall, 2),
         "violations": len({k for k, _, _ in violations}),
     }
-    os.makedirs(os.path.join(ROOT, "evidence"), exist_ok=True)
-    with open(os.path.join(ROOT, "evidence", f"{prop_id}.json"), "w") as fh:
+    evdir = os.environ.get("VERIF_EVIDENCE_DIR") or os.path.join(ROOT, "evidence")
+    os.makedirs(evdir, exist_ok=True)
+    with open(os.path.join(evdir, f"{prop_id}.json"), "w") as fh:
         json.dump(evidence, fh, indent=1, ensure_ascii=True, sort_keys=False)
         fh.write("\n")
 
